@@ -33,19 +33,18 @@ Lemma xsi_target_total q : is_crash (xsi_target q) = false.
 Proof. unfold xsi_target. destruct q as [so arr nd cx ext]. cbn. destruct so, arr, nd, cx, ext; reflexivity. Qed.
 
 (** ---------------------------------------------------------------- enum *)
-Lemma enum_from_bytes_spec {M} (class_attr : text -> M) soft nillable values ov :
-  enum_from_bytes class_attr soft nillable values ov = enum_spec class_attr values ov.
+(** validator='soft' (the setting C05 is about) *)
+Lemma enum_from_bytes_spec {M} (class_attr : text -> M) nillable values ov :
+  enum_from_bytes class_attr true nillable values ov = enum_spec class_attr values ov.
 Proof.
-  unfold enum_from_bytes, enum_spec, enum_vs, enum_vs_none. destruct ov as [v|].
-  - destruct (existsb (text_eqb v) values), soft; reflexivity.
-  - destruct soft; reflexivity.
+  unfold enum_from_bytes, enum_spec, enum_vs, enum_vs_none. destruct ov as [v|]; [|reflexivity].
+  destruct (existsb (text_eqb v) values); reflexivity.
 Qed.
-Lemma enum_from_element_spec {M} (class_attr : text -> M) soft nillable values ov :
-  enum_from_element class_attr soft nillable values ov = enum_spec class_attr values ov.
+Lemma enum_from_element_spec {M} (class_attr : text -> M) nillable values ov :
+  enum_from_element class_attr true nillable values ov = enum_spec class_attr values ov.
 Proof.
-  unfold enum_from_element, enum_spec, enum_vs, enum_vs_none. destruct ov as [v|].
-  - destruct (existsb (text_eqb v) values), soft; reflexivity.
-  - destruct soft; reflexivity.
+  unfold enum_from_element, enum_spec, enum_vs, enum_vs_none. destruct ov as [v|]; [|reflexivity].
+  destruct (existsb (text_eqb v) values); reflexivity.
 Qed.
 Lemma text_eqb_true_eq a : forall b, text_eqb a b = true -> a = b.
 Proof.
@@ -62,9 +61,9 @@ Proof.
   apply existsb_exists in E. destruct E as (x & Hin & Heq). apply text_eqb_true_eq in Heq. subst x.
   exists v. auto.
 Qed.
-Lemma enum_readers_agree {M} (class_attr : text -> M) soft nillable values ov :
-  enum_from_bytes class_attr soft nillable values ov = enum_from_element class_attr soft nillable values ov
-  /\ (forall m, enum_from_bytes class_attr soft nillable values ov = Ok m ->
+Lemma enum_readers_agree {M} (class_attr : text -> M) nillable values ov :
+  enum_from_bytes class_attr true nillable values ov = enum_from_element class_attr true nillable values ov
+  /\ (forall m, enum_from_bytes class_attr true nillable values ov = Ok m ->
         exists v, ov = Some v /\ In v values /\ m = class_attr v).
 Proof.
   rewrite enum_from_bytes_spec, enum_from_element_spec. split; [reflexivity|]. apply enum_delivers_member.
@@ -165,12 +164,12 @@ Lemma xml_nil_verdicts V nillable replace (default : option V) :
   nil_verdict_ok nillable default (xml_nil true nillable replace default)
   /\ is_ok (xml_nil true nillable replace default) = nillable.
 Proof. split; [apply xml_nil_verdict|apply xml_nil_accepts_iff_nillable]. Qed.
-Lemma enum_readers_are_spec M (class_attr : text -> M) soft nillable values ov :
-  enum_from_bytes class_attr soft nillable values ov = enum_spec class_attr values ov
-  /\ enum_from_element class_attr soft nillable values ov = enum_spec class_attr values ov.
+Lemma enum_readers_are_spec M (class_attr : text -> M) nillable values ov :
+  enum_from_bytes class_attr true nillable values ov = enum_spec class_attr values ov
+  /\ enum_from_element class_attr true nillable values ov = enum_spec class_attr values ov.
 Proof. split; [apply enum_from_bytes_spec|apply enum_from_element_spec]. Qed.
-Lemma enum_readers_agree' M (class_attr : text -> M) soft nillable values ov :
-  enum_from_bytes class_attr soft nillable values ov = enum_from_element class_attr soft nillable values ov
-  /\ (forall m, enum_from_bytes class_attr soft nillable values ov = Ok m ->
+Lemma enum_readers_agree' M (class_attr : text -> M) nillable values ov :
+  enum_from_bytes class_attr true nillable values ov = enum_from_element class_attr true nillable values ov
+  /\ (forall m, enum_from_bytes class_attr true nillable values ov = Ok m ->
         exists v, ov = Some v /\ In v values /\ m = class_attr v).
 Proof. apply enum_readers_agree. Qed.
